@@ -69,6 +69,8 @@ class MsSqlImpl(SqlImpl):
         if final_select is None:
             final_select = Cache.from_ast(nd).selected_cols()
 
+        sql.apply_verb_order_to_window_fns(nd)
+
         # boolean / bit conversion
         for desc in nd.iter_subtree_postorder():
             if isinstance(desc, verbs.Verb):
